@@ -703,3 +703,7 @@ V('c09-restore-only-scalar', 'C09', 'C09.R6',
    "                _ = self.parser.parse(mof, lexer=lexer)\n                self.parser.file = oldfile\n                self.parser.mof = oldmof\n            return self.parser.embedded_objects"), 'not-restored')
 V('c18-reuse-foreign-destination', 'C18', 'C18.R2',
   ('pywbem/_subscription_manager.py', "            for inst in self._owned_destinations[server_id]:\n                if inst['Destination'] == dest_inst['Destination'] and \\", "            for inst in existing_dest_insts:\n                if inst['Destination'] == dest_inst['Destination'] and \\"), 'foreign-instance-returned')
+
+# ---- C11: mutation of a borrowed repository object is a write ---------------
+V('c11-modify-borrowed', 'C11', 'C11.R1',
+  ('pywbem_mock/_instancewriteprovider.py', "        original_instance = instance_store.get(modified_instance.path)\n", "        original_instance = instance_store.get(modified_instance.path,\n                                               copy=False)\n"), 'InstanceWriteProvider.ModifyInstance')
